@@ -14,5 +14,6 @@ func TestWorker(t *testing.T) {
 	logrus.SetOutput(io.Discard)
 	kernel.WorkerMain(t, map[string]kernel.CheckFn{
 		"C15": checkC15,
+		"C17": checkC17,
 	})
 }
